@@ -268,8 +268,11 @@ def run(case, ctx):
     ctx.evals()
     try:
         if res.exc is not None:
-            ctx.skip("generator_crashed")   # C06
+            # D generated cleanly; a crash on D' is the bad piece taking *everything* else down with it
+            faults = _fault_kinds(case)
             ctx.label("crash:" + res.exc_site["exc"])
+            ctx.violation("bad_piece.contained_not_crash", {"fault": faults[0] if len(faults) == 1 else "several", "exc": res.exc_site["exc"],
+                                                            "func": res.exc_site.get("func")}, f"{res.exc!r}"[:300])
             return
         if res.has_error_level:
             ctx.violation("bad_piece.not_whole_document", {"faults": _fault_kinds(case)[:1]}, res.diag_text()[:300])
